@@ -231,7 +231,7 @@ func (r *Run) c09Marshal(m map[string]string, max int) {
 
 func runC09(r *Run) {
 	g := r.rng
-	r.st.Rule = "marshalString on every length 0..32768 and unmarshalStringLength/UnmarshalValues on every 2-byte prefix 0x0000..0xffff (exhaustive sub-sweeps); structured maps (0-6 entries, boundary key/value lengths, mixed-case ASCII keys) x budgets around every pair boundary; Set/Get; hostile decode inputs (every truncation of small blocks, truncations at and around every field boundary of large blocks, mutated prefixes, random bytes). distinct = distinct request lines; non-trivial = map non-empty / block non-empty / length above 0"
+	r.st.Rule = "marshalString on every length 0..32768 and unmarshalStringLength/UnmarshalValues on every 2-byte prefix 0x0000..0xffff (exhaustive sub-sweeps); structured maps (0-6 entries, boundary key/value lengths, mixed-case ASCII keys) x budgets around every pair boundary; Set/Get; hostile decode inputs (every truncation of small blocks, truncations at and around every field boundary of large blocks, mutated prefixes, random bytes). distinct = distinct request lines; non-trivial = map non-empty / block non-empty / length above 0 Malformed blocks inside otherwise well-formed v2 frames (every type, signed or not, body plain or really compressed) through both decode entry points."
 	// --- every string length (encoder side)
 	for n := 0; n <= 32768; n++ {
 		b, tooLong := protocol.VerifMarshalString(strings.Repeat("A", n))
